@@ -47,7 +47,7 @@ theorem stroke_polygon_emission_shape (e : Env K) (store : Nat → List K) (hfw 
     (hfar : ∀ i, i ≤ m + 1 → pointsAreTooClose e.thr (pt i) (pt (i + 1)) = false)
     (hnf : ∀ i, 1 ≤ i → i ≤ m + 1 → noFoldAt e (pt (i - 1)) (pt i) (pt (i + 1))) :
     EmittedC e pt m (runEvents e store (polyEvsC pt m)).st.out :=
-  run_emitted_closed e store hfw hj hw0 pt m hm hp0 hp1 hfar hnf
+  run_emitted_closed e store hfw (Or.inl hj) hw0 pt m hm hp0 hp1 hfar hnf
 
 /-- **`stroke_polygon_covers_rectangles`.**  Complete stroker model, CLOSED polygon `pt 0 … pt m` (`m ≥ 2`;
 `pt` continued `(m+1)`-periodically), fixed width, Bevel or Miter join, exact arithmetic, regime `RegimeC`:
@@ -91,7 +91,7 @@ theorem stroke_polygon_reach_bevel (e : Env K) (eps : K) (h : CoverHyp e eps) (p
     reachSq e pt 0 (k + 1) = e.hwFw * e.hwFw := by
   obtain ⟨_, hjc, _⟩ := regimeC_all h hper hr
   unfold reachSq
-  rw [outK_in_bevel k hb (hjc k) (hjc (k + 1))]; ring
+  rw [outK_in_bevel k (Or.inl hb) (hjc k) (hjc (k + 1))]; ring
 
 /-- in general (Miter) at most the miter length at the edge's ends: `(w/2)²·(1 + max(|tan(θ_a/2)|, |tan(θ_b/2)|)²)` -/
 theorem stroke_polygon_reach_factor (e : Env K) (eps : K) (h : CoverHyp e eps) (pt : Nat → P K) (k : Nat) :
@@ -173,7 +173,7 @@ theorem exSqRegime (lj : LineJoin) : RegimeC (exEnvJ lj) (1 / 10 ^ 8) exSq 3 := 
     show (2 : ℝ) * half = 1
     have : (half : ℝ) = 1 / 2 := sc_half
     rw [this]; norm_num
-  refine ⟨?_, ?_, ?_, ?_, ?_, ?_⟩
+  refine ⟨?_, ?_, ?_, ?_, ?_⟩
   · intro i hi
     interval_cases i <;>
       (simp [exEnvJ, exSq, pointsAreTooClose, Env.new, squareMergeThreshold, geom]; norm_num)
@@ -191,26 +191,10 @@ theorem exSqRegime (lj : LineJoin) : RegimeC (exEnvJ lj) (1 / 10 ^ 8) exSq 3 := 
   · intro i hi
     rw [hhw, exSq_tau i (by omega), exSq_tau (i + 1) (by omega), exSq_L (i + 1) (by omega)]
     norm_num
-  · -- MiterClip: every miter has squared length `1 + 1² = 2 ≤ (2·4)²`: kept
-    intro i hi hmc
-    have hs0 : ∀ x : ℝ, 0 ≤ x → 0 ≤ Transc.sqrt x := fun x _ => Real.sqrt_nonneg x
-    have hs : ∀ x : ℝ, 0 ≤ x → Transc.sqrt x * Transc.sqrt x = x := fun x hx => Real.mul_self_sqrt hx
-    have hml : (exEnvJ lj).o.miterLimit = 4 := rfl
-    have h1 : (exSq (i + 1 + 1) - exSq (i + 1)).sdiv (len (exSq (i + 1 + 1) - exSq (i + 1))) = eT exSq (i + 1) := rfl
-    have h0 : (exSq (i + 1) - exSq i).sdiv (len (exSq (i + 1) - exSq i)) = eT exSq i := rfl
-    have hq0 : 0 < (exSq (i + 1) - exSq i).sqLen := by
-      interval_cases i <;> (simp only [exSq, geom]; norm_num)
-    have hq1 : 0 < (exSq (i + 1 + 1) - exSq (i + 1)).sqLen := by
-      interval_cases i <;> (simp only [exSq, geom]; norm_num)
-    refine keptAt_of_limit _ hs0 hs _ _ _ hq0 hq1 ?_ (Or.inr hmc) ?_
-    · rw [h1, h0, exSq_T i (by omega), exSq_T (i + 1) (by omega), normalEpsilon_eq]
-      interval_cases i <;> (simp only [geom]; norm_num)
-    · have ht : (eT exSq i).cross (eT exSq (i + 1)) / (1 + (eT exSq i).dot (eT exSq (i + 1))) = 1 := exSq_tau i (by omega)
-      rw [h1, h0, ht, hml]; norm_num
 
 /-- … so every point of every edge's rectangle — the closing edge `(0,10) → (0,0)` (`k = 3`) included — lies in a
 triangle the complete model emits, with Bevel and with Miter joins -/
-example (lj : LineJoin) (hlj : lj = .bevel ∨ lj = .miter ∨ lj = .miterClip) (store : Nat → List ℝ) (s u : ℝ)
+example (lj : LineJoin) (hlj : lj = .bevel ∨ lj = .miter ∨ lj = .miterClip ∨ lj = .round) (store : Nat → List ℝ) (s u : ℝ)
     (hs : 0 ≤ s) (hs1 : s ≤ 1) (hu : -1 ≤ u) (hu1 : u ≤ 1) :
     ∃ t ∈ (runEvents (exEnvJ lj) store (polyEvsC exSq 3)).st.out.tris, ∃ v1 v2 v3 : VData ℝ,
       (runEvents (exEnvJ lj) store (polyEvsC exSq 3)).st.out.verts[t.1]? = some v1
